@@ -451,6 +451,9 @@ pub struct TrafficParams {
     /// a futures single-consumer receiver of a move-out queue may call add_stream_with during
     /// traffic (the API of known finding D7; only where the oracle is indifferent to D7 itself)
     pub mpmc_uni_fork: bool,
+    /// consumers only use non-blocking entry points (C18 freeze sweep: a consumer must not sit in
+    /// a legitimately blocking receive when its non-blocking operations are what is examined)
+    pub try_only: bool,
 }
 
 impl Default for TrafficParams {
@@ -474,6 +477,7 @@ impl Default for TrafficParams {
             w_burst: 0,
             w_try_iter: 1,
             mpmc_uni_fork: false,
+            try_only: false,
         }
     }
 }
@@ -505,6 +509,16 @@ fn consumer_plan(p: TrafficParams, may_leave: bool) -> BoxedStrategy<ConsumerPla
             (2, Just(COp::RecvView).boxed()),
             (1, Just(COp::Yield).boxed()),
         ])
+    } else if p.try_only {
+        wunion(vec![
+            (4, Just(COp::TryRecv).boxed()),
+            (2, Just(COp::TryView).boxed()),
+            (p.w_try_iter.max(1), (0u8..3).prop_map(COp::TryIter).boxed()),
+            (1, Just(COp::Yield).boxed()),
+            (p.w_clone_rx, Just(COp::CloneRecvDrop).boxed()),
+            (p.w_convert, Just(COp::IntoSingle).boxed()),
+            (p.w_convert, Just(COp::IntoMulti).boxed()),
+        ])
     } else {
         wunion(vec![
             (4, Just(COp::TryRecv).boxed()),
@@ -527,6 +541,8 @@ fn consumer_plan(p: TrafficParams, may_leave: bool) -> BoxedStrategy<ConsumerPla
             1 => Just(DrainHow::Iter),
         ]
         .boxed()
+    } else if p.try_only {
+        Just(DrainHow::Try).boxed()
     } else {
         prop_oneof![
             3 => Just(DrainHow::Try),
